@@ -591,7 +591,10 @@ class Engine:
                 hyps.append(tmark(TID(tc_)))
                 for M_ in getattr(self, "_map_funs", {}).values():
                     hyps.append(tmark(TID(M_(tc_))))
+            used_ = _decl_ids(hyps + [goal2])
             for row_ in self.row_registry:
+                if row_.get_id() not in used_:
+                    continue  # a row function of another path / an earlier list state: irrelevant here
                 for cst in consts:
                     hyps.append(tmark(TID(row_(cst))))
                     for M_ in getattr(self, "_tuple_from", {}).values():  # images of rows under the NAMED tuple maps of a lemma
@@ -2388,6 +2391,23 @@ def skolemize(hyps, goal):
 import itertools as _it  # noqa: E402
 
 _SK = _it.count()
+
+
+def _decl_ids(fs):
+    """ids of the function symbols occurring in the formulas"""
+    out, seen, todo = set(), set(), list(fs)
+    while todo:
+        e = todo.pop()
+        i = e.get_id()
+        if i in seen:
+            continue
+        seen.add(i)
+        if z3.is_quantifier(e):
+            todo.append(e.body())
+        elif z3.is_app(e):
+            out.add(e.decl().get_id())
+            todo.extend(e.children())
+    return out
 
 
 def _has_pos_exists(g, depth=0):
